@@ -129,6 +129,16 @@ func step(st interface{}, in interface{}, out interface{}) (bool, interface{}) {
 		return o.N == n, s
 	case "expiry":
 		return true, s
+	case "resetall":
+		// ForAllRecordsDo with a callback that reads the delta sums and resets them: output = what it read
+		var ex []export
+		for fi := range s.F {
+			if s.F[fi].Held {
+				ex = append(ex, export{fi, s.F[fi].Sum})
+				s.F[fi].Sum = [2]uint64{}
+			}
+		}
+		return renderExports(ex) == o.Exports, s
 	case "scan":
 		var ex []export
 		for fi := range s.F {
@@ -235,6 +245,15 @@ func scanExport(ap *intermediate.AggregationProcess) output {
 	return output{Exports: renderExports(ex)}
 }
 
+func walkAndReset(ap *intermediate.AggregationProcess) output {
+	var ex []export
+	ap.ForAllRecordsDo(func(fk intermediate.FlowKey, rec *intermediate.AggregationFlowRecord) error {
+		ex = append(ex, export{flowIndex(fk), sums(rec.Record.GetElementMap())})
+		return ap.ResetStatAndThroughputElementsInRecord(rec.Record)
+	})
+	return output{Exports: renderExports(ex)}
+}
+
 func linHistory(c *hx.Ctx, k int, r *rand.Rand) {
 	procs := []int{1, 2, 4, 16}[r.IntN(4)]
 	runtime.GOMAXPROCS(procs)
@@ -301,6 +320,13 @@ func linHistory(c *hx.Ctx, k int, r *rand.Rand) {
 		}
 		plans = append(plans, p)
 	}
+	for i := 0; i < r.IntN(3); i++ { // 0-2 goroutines that walk all records through ForAllRecordsDo (read + reset)
+		p := plan{client: len(plans)}
+		for j := 0; j < 1+r.IntN(2); j++ {
+			p.ops = append(p.ops, input{Op: "resetall"})
+		}
+		plans = append(plans, p)
+	}
 	var wg sync.WaitGroup
 	startGate := make(chan struct{})
 	jit := make([]uint64, len(plans))
@@ -327,6 +353,8 @@ func linHistory(c *hx.Ctx, k int, r *rand.Rand) {
 					rec.do(p.client, in, func() output { ap.AggregateMsgByFlowKey(msg); return output{} })
 				case "scan":
 					rec.do(p.client, in, func() output { return scanExport(ap) })
+				case "resetall":
+					rec.do(p.client, in, func() output { return walkAndReset(ap) })
 				case "get":
 					fk := agg.Keys[in.Flow].FlowKey()
 					rec.do(p.client, in, func() output {
@@ -492,6 +520,36 @@ func stressRun(c *hx.Ctx, k int, r *rand.Rand) {
 			time.Sleep(200 * time.Microsecond)
 		}
 	}()
+	for wk := 0; wk < 2; wk++ { // two walkers: ForAllRecordsDo reading the sums and resetting them (accounted as exports)
+		aux.Add(1)
+		go func() {
+			defer aux.Done()
+			for {
+				select {
+				case <-stop:
+					return
+				default:
+				}
+				ap.ForAllRecordsDo(func(fk intermediate.FlowKey, rec *intermediate.AggregationFlowRecord) error {
+					fi := -1
+					for i := 0; i < 8; i++ {
+						if agg.Keys[i].FlowKey() == fk {
+							fi = i
+						}
+					}
+					if fi < 0 {
+						return nil
+					}
+					s := sums(rec.Record.GetElementMap())
+					expMu.Lock()
+					exported[fi] += s[0]
+					expMu.Unlock()
+					return ap.ResetStatAndThroughputElementsInRecord(rec.Record)
+				})
+				time.Sleep(300 * time.Microsecond)
+			}
+		}()
+	}
 	go func() { // queries
 		defer aux.Done()
 		qr := rand.New(rand.NewPCG(seeds[nprod], 3))
